@@ -3994,6 +3994,7 @@ class Wallet(object):
                 transaction.locktime = blockcount
 
         transaction.fee_per_kb = None
+        fee_arg = fee
         if isinstance(fee, int):
             fee_estimate = fee
         else:
@@ -4100,9 +4101,14 @@ class Wallet(object):
                                       sequence=sequence, locktime_cltv=locktime_cltv, locktime_csv=locktime_csv,
                                       witness_type=witness_type, key_path=key.path)
         # Calculate fees
+        transaction.size = transaction.estimate_size(number_of_change_outputs=number_of_change_outputs)
+        if input_arr and isinstance(fee_arg, str):
+            # Fee given as priority ('low', 'normal', 'high') with a list of inputs: estimate from the size
+            if transaction.fee_per_kb < transaction.network.fee_min:
+                transaction.fee_per_kb = transaction.network.fee_min
+            fee = int((transaction.size / 1000.0) * transaction.fee_per_kb)
         transaction.fee = fee
         fee_per_output = None
-        transaction.size = transaction.estimate_size(number_of_change_outputs=number_of_change_outputs)
         if fee is None:
             if not input_arr:
                 if not transaction.fee_per_kb:
